@@ -124,5 +124,11 @@ func C01(c *vf.Check) {
 		assume: []string{"element type int, two int parameters; programs the compiler rejects or whose output does not build are C11's business and are not compared here"}})
 	runFam(c, famSpec{id: "C01", fam: "lit", name: "F_lit", sizeQ: "3", sizeT: "4", tapeQ: "2", tapeT: "2", callsQ: 6, callsT: 7, keys: keys, rule: ""})
 	runFam(c, famSpec{id: "C01", fam: "jump", name: "F_jump", sizeQ: "4", sizeT: "5", tapeQ: "2", tapeT: "3", callsQ: 6, callsT: 7, keys: keys, lazyT: true, rule: ""})
+	// the same control-flow programs under every way of declaring a generator (method, generic function,
+	// function literal, literal nested in a literal): behaviour, not only compilation (C11)
+	for _, form := range []string{"method", "generic", "lit", "nestedlit"} {
+		runFam(c, famSpec{id: "C01", fam: "ctl", name: "F_ctl/" + form, sizeQ: "2", sizeT: "3", tapeQ: "2", tapeT: "2", callsQ: 5, callsT: 6, keys: keys,
+			opts: srcOpts{Form: form}, rule: ""})
+	}
 	randomLarger(c, "C01", keys, tier(c, 300, 5000))
 }
